@@ -35,7 +35,7 @@ type ShimHooks struct {
 }
 
 // InstallShimHooks activates the hooks; call Uninstall when the execution is over.
-func init() { vsync.Track = true; vrand.Small = true }
+func init() { vsync.Track = true; vsync.Scribble = true; vrand.Small = true }
 
 func InstallShimHooks(s *sched.Sched) *ShimHooks {
 	h := &ShimHooks{S: s, locks: map[interface{}]*shimLock{}, pools: map[*vsync.Pool][]interface{}{}, names: map[interface{}]int{}}
@@ -72,8 +72,13 @@ func (h *ShimHooks) lock(m interface{}) *shimLock {
 }
 
 func (h *ShimHooks) Acquire(m interface{}, write bool) {
+	// (checked before the scheduler is asked anything: lock probes run while the scheduler holds its
+	// own mutex, and every lock of rend goes through the shim)
+	if !h.LockPoints || (h.LockFilter != nil && !h.LockFilter(m)) {
+		return
+	}
 	tid := h.S.Current()
-	if tid < 0 || !h.LockPoints || (h.LockFilter != nil && !h.LockFilter(m)) {
+	if tid < 0 {
 		return
 	}
 	l := h.lock(m)
@@ -104,8 +109,13 @@ func (h *ShimHooks) Acquire(m interface{}, write bool) {
 }
 
 func (h *ShimHooks) Acquired(m interface{}, write bool) {
+	// (checked before the scheduler is asked anything: lock probes run while the scheduler holds its
+	// own mutex, and every lock of rend goes through the shim)
+	if !h.LockPoints || (h.LockFilter != nil && !h.LockFilter(m)) {
+		return
+	}
 	tid := h.S.Current()
-	if tid < 0 || !h.LockPoints || (h.LockFilter != nil && !h.LockFilter(m)) {
+	if tid < 0 {
 		return
 	}
 	if !write && h.OnReadSection != nil {
@@ -114,8 +124,13 @@ func (h *ShimHooks) Acquired(m interface{}, write bool) {
 }
 
 func (h *ShimHooks) Release(m interface{}, write bool) {
+	// (checked before the scheduler is asked anything: lock probes run while the scheduler holds its
+	// own mutex, and every lock of rend goes through the shim)
+	if !h.LockPoints || (h.LockFilter != nil && !h.LockFilter(m)) {
+		return
+	}
 	tid := h.S.Current()
-	if tid < 0 || !h.LockPoints || (h.LockFilter != nil && !h.LockFilter(m)) {
+	if tid < 0 {
 		return
 	}
 	l := h.lock(m)
